@@ -14,6 +14,7 @@ import (
 	"testing"
 	"time"
 
+	"github.com/olric-data/olric/config"
 	"github.com/olric-data/olric/verifharness/cluster"
 	"github.com/olric-data/olric/verifharness/trace"
 )
@@ -190,4 +191,490 @@ func TestC01(t *testing.T) {
 		t.Fatal(err)
 	}
 	writeSummary(t, out, "c01.summary.json", sum)
+}
+
+// record post-processes and emits the histories of one run, counting non-trivial ones.
+func record(w *trace.Writer, rec *Recorder, seq *int, sum *summary, seen map[string]bool, meta trace.Ev, nontrivial func(*History) bool) {
+	hs := rec.Split()
+	Emit(w, hs, seq, meta)
+	for _, h := range hs {
+		sum.Histories++
+		if nontrivial(h) {
+			sig := fmt.Sprintf("%v", h.Events)
+			if !seen[sig] {
+				seen[sig] = true
+				sum.DistinctNontrivial++
+			}
+			if len(sum.Samples) < 2 && h.Ops <= 12 {
+				sum.Samples = append(sum.Samples, map[string]any{"meta": meta, "key": h.Key, "events": h.Events})
+			}
+		}
+	}
+}
+
+// TestC07 records concurrent Incr/Decr/IncrByFloat/GetPut calls on one key from callers spread
+// over entry points.
+func TestC07(t *testing.T) {
+	out := os.Getenv("VERIF_OUT")
+	if out == "" {
+		t.Skip("VERIF_OUT not set")
+	}
+	rng := rand.New(rand.NewSource(int64(envInt("VERIF_SEED", 1))))
+	rounds := envInt("VERIF_ROUNDS", 10)
+	w, err := trace.New(filepath.Join(out, "c07.ndjson"))
+	if err != nil {
+		t.Fatal(err)
+	}
+	sum := &summary{Paths: map[string]int{}}
+	seq := 0
+	seen := map[string]bool{}
+	for _, R := range []int{1, 2} {
+		c, err := cluster.Start(cluster.Options{Replicas: R, Partitions: 7, Manual: true}, 3)
+		if err != nil {
+			t.Fatal(err)
+		}
+		cfg := fmt.Sprintf("N=3 R=%d", R)
+		sum.Configs = append(sum.Configs, cfg)
+		paths := allPaths(t, c)
+		for round := 0; round < rounds; round++ {
+			rec := NewRecorder()
+			n := 2 + rng.Intn(3)
+			calls := 4 + rng.Intn(6)
+			kInt := fmt.Sprintf("int-%d-%d", R, round)
+			kFlt := fmt.Sprintf("flt-%d-%d", R, round)
+			kGp := fmt.Sprintf("gp-%d-%d", R, round)
+			// assignment of callers to entry points: all on one path, or spread
+			same := rng.Intn(4) == 0
+			base := rng.Intn(len(paths))
+			var scripts []Script
+			for ci := 0; ci < n; ci++ {
+				p := paths[base]
+				if !same {
+					p = paths[rng.Intn(len(paths))]
+				}
+				sum.Paths[p.Name()]++
+				sc := Script{Client: fmt.Sprintf("c%d", ci), Path: p}
+				for j := 0; j < calls; j++ {
+					x := rng.Intn(100)
+					switch {
+					case x < 35:
+						sc.Steps = append(sc.Steps, Step{Op: "incr", Key: kInt, Delta: 1 + rng.Intn(5)})
+					case x < 50:
+						sc.Steps = append(sc.Steps, Step{Op: "decr", Key: kInt, Delta: 1 + rng.Intn(3)})
+					case x < 70:
+						sc.Steps = append(sc.Steps, Step{Op: "incrf", Key: kFlt, Delta: []int{512, 256, 128, 1024, 64}[rng.Intn(5)]})
+					default:
+						sc.Steps = append(sc.Steps, Step{Op: "getput", Key: kGp, Val: fmt.Sprintf("g%d.%d", ci, j)})
+					}
+					sum.Evaluations++
+				}
+				scripts = append(scripts, sc)
+			}
+			rec.Run("c07", scripts, yielder(rng))
+			// the final value, read through one more path
+			fin := paths[rng.Intn(len(paths))]
+			rec.Run("c07", []Script{{Client: "fin", Path: fin, Steps: []Step{
+				{Op: "get", Key: kInt, Num: true}, {Op: "get", Key: kFlt, Float: true}, {Op: "get", Key: kGp}}}}, nil)
+			record(w, rec, &seq, sum, seen, trace.Ev{"cfg": cfg, "same_path": same}, func(h *History) bool { return h.Overlap })
+		}
+		for _, p := range paths {
+			p.Close()
+		}
+		c.Shutdown()
+	}
+	if err := w.Close(); err != nil {
+		t.Fatal(err)
+	}
+	writeSummary(t, out, "c07.summary.json", sum)
+}
+
+// TestC09 records micro-scenarios around expiry deadlines: a key is given a time-to-live in one of
+// the ways the API offers, then operations are placed shortly before and after the deadline.
+func TestC09(t *testing.T) {
+	out := os.Getenv("VERIF_OUT")
+	if out == "" {
+		t.Skip("VERIF_OUT not set")
+	}
+	rng := rand.New(rand.NewSource(int64(envInt("VERIF_SEED", 1))))
+	batches := envInt("VERIF_ROUNDS", 3)
+	perBatch := envInt("VERIF_PER_BATCH", 40)
+	w, err := trace.New(filepath.Join(out, "c09.ndjson"))
+	if err != nil {
+		t.Fatal(err)
+	}
+	sum := &summary{Paths: map[string]int{}}
+	seq := 0
+	seen := map[string]bool{}
+	const defTTL = 150 * time.Millisecond
+	for _, R := range []int{1, 2} {
+		c, err := cluster.Start(cluster.Options{Replicas: R, Partitions: 7, Manual: true,
+			DMaps: func(d *config.DMaps) {
+				d.Custom = map[string]config.DMap{"c09ttl": {TTLDuration: defTTL}}
+			}}, 3)
+		if err != nil {
+			t.Fatal(err)
+		}
+		cfg := fmt.Sprintf("N=3 R=%d", R)
+		sum.Configs = append(sum.Configs, cfg)
+		paths := allPaths(t, c)
+		for b := 0; b < batches; b++ {
+			for _, dmName := range []string{"c09", "c09ttl"} {
+				rec := NewRecorder()
+				var scripts []Script
+				for s := 0; s < perBatch; s++ {
+					theta := time.Duration(80+40*rng.Intn(4)) * time.Millisecond
+					p := paths[rng.Intn(len(paths))]
+					sum.Paths[p.Name()]++
+					key := fmt.Sprintf("t%d-%d-%d", R, b, s)
+					sc := Script{Client: fmt.Sprintf("s%d", s), Path: p}
+					var dttl time.Duration
+					numeric := rng.Intn(5) == 0
+					start := time.Duration(rng.Intn(30)) * time.Millisecond
+					if dmName == "c09ttl" {
+						dttl, theta = defTTL, defTTL
+						if numeric {
+							sc.Steps = append(sc.Steps, Step{Op: "incr", Key: key, Delta: 3, DTTL: dttl, At: start})
+						} else {
+							sc.Steps = append(sc.Steps, Step{Op: "put", Key: key, Val: "a" + key, DTTL: dttl, At: start})
+						}
+					} else if numeric {
+						sc.Steps = append(sc.Steps, Step{Op: "incr", Key: key, Delta: 3, At: start},
+							Step{Op: "expire", Key: key, D: theta, Ms: rng.Intn(2) == 0})
+					} else {
+						mode := []string{"EX", "PX", "EXAT", "PXAT", "expire", "pexpire"}[rng.Intn(6)]
+						o := PutOpts{NX: rng.Intn(4) == 0}
+						switch mode {
+						case "EX", "PX":
+							o.Mode, o.D = mode, theta
+							sc.Steps = append(sc.Steps, Step{Op: "put", Key: key, Val: "a" + key, Opts: o, At: start})
+						case "EXAT", "PXAT":
+							// absolute deadline, whole milliseconds
+							o.Mode = mode
+							o.D = time.Duration(time.Now().Add(start+theta).UnixMilli()) * time.Millisecond
+							sc.Steps = append(sc.Steps, Step{Op: "put", Key: key, Val: "a" + key, Opts: o, At: start})
+						default:
+							sc.Steps = append(sc.Steps, Step{Op: "put", Key: key, Val: "a" + key, At: start},
+								Step{Op: "expire", Key: key, D: theta, Ms: mode == "pexpire"})
+						}
+					}
+					// follow-ups around the deadline
+					offs := []int{-55, -30, 12, 35, 90}
+					nf := 2 + rng.Intn(3)
+					prev := -1000
+					for f := 0; f < nf; f++ {
+						off := offs[rng.Intn(len(offs))]
+						if off <= prev {
+							continue
+						}
+						prev = off
+						at := start + theta + time.Duration(off)*time.Millisecond
+						var st Step
+						if numeric {
+							if rng.Intn(2) == 0 {
+								st = Step{Op: "incr", Key: key, Delta: 1 + rng.Intn(3), DTTL: dttl}
+							} else {
+								st = Step{Op: "get", Key: key, Num: true}
+							}
+						} else {
+							switch x := rng.Intn(100); {
+							case x < 35:
+								st = Step{Op: "get", Key: key}
+							case x < 47:
+								st = Step{Op: "put", Key: key, Val: fmt.Sprintf("n%d%s", f, key), Opts: PutOpts{NX: true}, DTTL: dttl}
+							case x < 59:
+								st = Step{Op: "put", Key: key, Val: fmt.Sprintf("x%d%s", f, key), Opts: PutOpts{XX: true}, DTTL: dttl}
+							case x < 70:
+								st = Step{Op: "expire", Key: key, D: 70 * time.Millisecond, Ms: rng.Intn(2) == 0}
+							case x < 82:
+								st = Step{Op: "getput", Key: key, Val: fmt.Sprintf("g%d%s", f, key), DTTL: dttl}
+							default:
+								st = Step{Op: "put", Key: key, Val: fmt.Sprintf("p%d%s", f, key), DTTL: dttl}
+							}
+						}
+						st.At = at
+						sc.Steps = append(sc.Steps, st)
+					}
+					// a last read well after everything
+					sc.Steps = append(sc.Steps, Step{Op: "get", Key: key, Num: numeric, At: start + theta + 200*time.Millisecond})
+					sum.Evaluations += len(sc.Steps)
+					scripts = append(scripts, sc)
+				}
+				rec.Run(dmName, scripts, nil)
+				record(w, rec, &seq, sum, seen, trace.Ev{"cfg": cfg, "dmap": dmName}, func(h *History) bool { return true })
+			}
+		}
+		for _, p := range paths {
+			p.Close()
+		}
+		c.Shutdown()
+	}
+	if err := w.Close(); err != nil {
+		t.Fatal(err)
+	}
+	writeSummary(t, out, "c09.summary.json", sum)
+}
+
+// TestC08 records competing lockers on one key per scenario.
+func TestC08(t *testing.T) {
+	out := os.Getenv("VERIF_OUT")
+	if out == "" {
+		t.Skip("VERIF_OUT not set")
+	}
+	rng := rand.New(rand.NewSource(int64(envInt("VERIF_SEED", 1))))
+	batches := envInt("VERIF_ROUNDS", 2)
+	perBatch := envInt("VERIF_PER_BATCH", 20)
+	w, err := trace.New(filepath.Join(out, "c08.ndjson"))
+	if err != nil {
+		t.Fatal(err)
+	}
+	sum := &summary{Paths: map[string]int{}}
+	seq := 0
+	seen := map[string]bool{}
+	ms := func(n int) time.Duration { return time.Duration(n) * time.Millisecond }
+	for _, R := range []int{1, 2} {
+		c, err := cluster.Start(cluster.Options{Replicas: R, Partitions: 7, Manual: true}, 3)
+		if err != nil {
+			t.Fatal(err)
+		}
+		cfg := fmt.Sprintf("N=3 R=%d", R)
+		sum.Configs = append(sum.Configs, cfg)
+		paths := allPaths(t, c)
+		var resps []Path
+		for _, p := range paths {
+			if _, ok := p.(*respPath); ok {
+				resps = append(resps, p)
+			}
+		}
+		for b := 0; b < batches; b++ {
+			rec := NewRecorder()
+			var scripts []Script
+			for s := 0; s < perBatch; s++ {
+				key := fmt.Sprintf("l%d-%d-%d", R, b, s)
+				n := 2 + rng.Intn(2)
+				timed := rng.Intn(3) != 0
+				tau := ms([]int{150, 300}[rng.Intn(2)])
+				if !timed {
+					tau = 0
+				}
+				for ci := 0; ci < n; ci++ {
+					p := paths[rng.Intn(len(paths))]
+					sum.Paths[p.Name()]++
+					sc := Script{Client: fmt.Sprintf("s%d.%d", s, ci), Path: p}
+					at := ms(rng.Intn(120))
+					delta := ms([]int{100, 250, 500}[rng.Intn(3)])
+					sc.Steps = append(sc.Steps, Step{Op: "lock", Key: key, D: tau, Deadline: delta, At: at})
+					switch x := rng.Intn(10); {
+					case x < 4:
+						// hold for a while, then unlock
+						sc.Steps = append(sc.Steps, Step{Op: "sleep", D: ms(20 + rng.Intn(80))}, Step{Op: "unlock", Key: key})
+					case x < 6:
+						// lease, then unlock
+						sc.Steps = append(sc.Steps, Step{Op: "sleep", D: ms(30)}, Step{Op: "lease", Key: key, D: ms(200)},
+							Step{Op: "sleep", D: ms(60 + rng.Intn(200))}, Step{Op: "unlock", Key: key})
+					case x < 8 && timed:
+						// let it expire, then present the stale token
+						sc.Steps = append(sc.Steps, Step{Op: "sleep", D: tau + ms(40+rng.Intn(100))}, Step{Op: "unlock", Key: key})
+					case x < 9 && timed:
+						sc.Steps = append(sc.Steps, Step{Op: "sleep", D: tau + ms(40)}, Step{Op: "lease", Key: key, D: ms(100)})
+					default:
+						sc.Steps = append(sc.Steps, Step{Op: "sleep", D: ms(50)}, Step{Op: "unlock", Key: key},
+							Step{Op: "unlock", Key: key}) // second unlock presents a token that is no longer current
+					}
+					sum.Evaluations += len(sc.Steps)
+					scripts = append(scripts, sc)
+				}
+				if rng.Intn(3) == 0 && len(resps) > 0 {
+					// a stranger presents a forged token while the lock is (probably) held
+					p := resps[rng.Intn(len(resps))]
+					scripts = append(scripts, Script{Client: fmt.Sprintf("s%d.f", s), Path: p, Steps: []Step{
+						{Op: "unlockforged", Key: key, At: ms(60 + rng.Intn(100))}, {Op: "leaseforged", Key: key, D: ms(500)}}})
+				}
+				// a late comer after everything timed out must get the lock if it is timed
+				if timed {
+					p := paths[rng.Intn(len(paths))]
+					scripts = append(scripts, Script{Client: fmt.Sprintf("s%d.z", s), Path: p, Steps: []Step{
+						{Op: "lock", Key: key, D: ms(100), Deadline: ms(1500), At: ms(700)}, {Op: "unlock", Key: key}}})
+				}
+			}
+			rec.Run("c08", scripts, nil)
+			record(w, rec, &seq, sum, seen, trace.Ev{"cfg": cfg}, func(h *History) bool { return h.Overlap })
+		}
+		for _, p := range paths {
+			p.Close()
+		}
+		c.Shutdown()
+	}
+	if err := w.Close(); err != nil {
+		t.Fatal(err)
+	}
+	writeSummary(t, out, "c08.summary.json", sum)
+}
+
+// TestC15 runs every operation x option combination x initial state through every client path,
+// each case on a key of its own, and records the tiny sequential histories.
+func TestC15(t *testing.T) {
+	out := os.Getenv("VERIF_OUT")
+	if out == "" {
+		t.Skip("VERIF_OUT not set")
+	}
+	rng := rand.New(rand.NewSource(int64(envInt("VERIF_SEED", 1))))
+	fraction := envInt("VERIF_FRACTION", 100) // percent of the cases to run
+	w, err := trace.New(filepath.Join(out, "c15.ndjson"))
+	if err != nil {
+		t.Fatal(err)
+	}
+	sum := &summary{Paths: map[string]int{}}
+	seq := 0
+	seen := map[string]bool{}
+	ms := func(n int) time.Duration { return time.Duration(n) * time.Millisecond }
+	c, err := cluster.Start(cluster.Options{Replicas: 2, Partitions: 13, Manual: true}, 3)
+	if err != nil {
+		t.Fatal(err)
+	}
+	defer c.Shutdown()
+	sum.Configs = append(sum.Configs, "N=3 R=2 P=13")
+	paths := allPaths(t, c)
+	for _, m := range c.Live()[:1] {
+		pp, err := Pipeline(m)
+		if err != nil {
+			t.Fatal(err)
+		}
+		paths = append(paths, pp)
+	}
+	defer func() {
+		for _, p := range paths {
+			p.Close()
+		}
+	}()
+	type kase struct {
+		name  string
+		steps func(key string) []Step // the operation under test and its follow-ups (after the initial state)
+		lock  bool
+	}
+	var cases []kase
+	for _, cond := range []string{"", "NX", "XX"} {
+		for _, mode := range []string{"", "EX", "PX", "EXAT", "PXAT"} {
+			cond, mode := cond, mode
+			cases = append(cases, kase{name: "put" + cond + mode, steps: func(key string) []Step {
+				o := PutOpts{NX: cond == "NX", XX: cond == "XX", Mode: mode}
+				switch mode {
+				case "EX", "PX":
+					o.D = ms(120)
+				case "EXAT", "PXAT":
+					o.D = time.Duration(time.Now().Add(ms(420)).UnixMilli()) * time.Millisecond
+				}
+				at := ms(300)
+				if mode == "EXAT" || mode == "PXAT" {
+					at = 0
+				}
+				return []Step{{Op: "put", Key: key, Val: "new-" + key, Opts: o, At: at}, {Op: "get", Key: key},
+					{Op: "get", Key: key, At: ms(470)}}
+			}})
+		}
+	}
+	for _, msv := range []bool{false, true} {
+		msv := msv
+		cases = append(cases, kase{name: fmt.Sprintf("expire ms=%v", msv), steps: func(key string) []Step {
+			return []Step{{Op: "expire", Key: key, D: ms(100), Ms: msv, At: ms(300)}, {Op: "get", Key: key}, {Op: "get", Key: key, At: ms(450)}}
+		}})
+	}
+	cases = append(cases, kase{name: "getput", steps: func(key string) []Step {
+		return []Step{{Op: "getput", Key: key, Val: "gp-" + key, At: ms(300)}, {Op: "get", Key: key}, {Op: "get", Key: key, At: ms(450)}}
+	}})
+	cases = append(cases, kase{name: "del1", steps: func(key string) []Step {
+		return []Step{{Op: "mdel", Keys: []string{key}, At: ms(300)}, {Op: "get", Key: key}}
+	}})
+	for n := 2; n <= 4; n++ {
+		n := n
+		cases = append(cases, kase{name: fmt.Sprintf("del%d", n), steps: func(key string) []Step {
+			ks := []string{key}
+			for j := 1; j < n; j++ {
+				ks = append(ks, fmt.Sprintf("%s+%d", key, j))
+			}
+			st := []Step{}
+			for _, k := range ks[1:] {
+				st = append(st, Step{Op: "put", Key: k, Val: "x-" + k})
+			}
+			st = append(st, Step{Op: "mdel", Keys: ks, At: ms(300)})
+			for _, k := range ks {
+				st = append(st, Step{Op: "get", Key: k})
+			}
+			return st
+		}})
+	}
+	cases = append(cases, kase{name: "lock", lock: true, steps: func(key string) []Step {
+		// (a Get of the lock key would return the random token, which the driver cannot name)
+		return []Step{{Op: "lock", Key: key, D: 0, Deadline: ms(50), At: ms(300)}, {Op: "lease", Key: key, D: ms(100)},
+			{Op: "unlock", Key: key}, {Op: "get", Key: key}}
+	}})
+	cases = append(cases, kase{name: "locktimeout", lock: true, steps: func(key string) []Step {
+		return []Step{{Op: "lock", Key: key, D: ms(120), Deadline: ms(50), At: ms(300)},
+			{Op: "lock", Key: key, D: ms(100), Deadline: ms(40), At: ms(330), Slot: 1},
+			{Op: "lock", Key: key, D: ms(100), Deadline: ms(400), At: ms(480), Slot: 2}, {Op: "unlock", Key: key, Slot: 2}}
+	}})
+	numCases := []kase{
+		{name: "incr", steps: func(key string) []Step {
+			return []Step{{Op: "incr", Key: key, Delta: 4, At: ms(300)}, {Op: "get", Key: key, Num: true}, {Op: "get", Key: key, Num: true, At: ms(450)}}
+		}},
+		{name: "decr", steps: func(key string) []Step {
+			return []Step{{Op: "decr", Key: key, Delta: 3, At: ms(300)}, {Op: "get", Key: key, Num: true}, {Op: "get", Key: key, Num: true, At: ms(450)}}
+		}},
+	}
+	fltCase := kase{name: "incrbyfloat", steps: func(key string) []Step {
+		return []Step{{Op: "incrf", Key: key, Delta: 512, At: ms(300)}, {Op: "get", Key: key, Float: true}}
+	}}
+	rec := NewRecorder()
+	var scripts []Script
+	n := 0
+	add := func(k kase, init string, p Path, setup []Step) {
+		if rng.Intn(100) >= fraction {
+			return
+		}
+		if k.lock {
+			if _, ok := p.(*pipePath); ok {
+				return
+			}
+		}
+		n++
+		key := fmt.Sprintf("q%d", n)
+		// the initial state is established through an embedded client on the first member
+		var st []Step
+		for _, s := range setup {
+			s.Key = key
+			st = append(st, s)
+		}
+		sum.Paths[p.Name()]++
+		if len(st) > 0 {
+			scripts = append(scripts, Script{Client: fmt.Sprintf("i%d", n), Path: paths[0], Steps: st})
+		}
+		steps := k.steps(key)
+		scripts = append(scripts, Script{Client: fmt.Sprintf("u%d", n), Path: p, Steps: steps})
+		sum.Evaluations += len(st) + len(steps)
+		if len(sum.Samples) < 3 && rng.Intn(50) == 0 {
+			sum.Samples = append(sum.Samples, map[string]any{"case": k.name, "initial": init, "path": p.Name(), "steps": steps})
+		}
+	}
+	for _, p := range paths {
+		for _, k := range cases {
+			add(k, "absent", p, nil)
+			add(k, "present", p, []Step{{Op: "put", Val: "old"}})
+			add(k, "present+ttl", p, []Step{{Op: "put", Val: "old", Opts: PutOpts{Mode: "PX", D: ms(420)}}})
+		}
+		for _, k := range numCases {
+			add(k, "absent", p, nil)
+			add(k, "present", p, []Step{{Op: "incr", Delta: 10}})
+			add(k, "present+ttl", p, []Step{{Op: "incr", Delta: 10}, {Op: "expire", D: ms(420), Ms: true}})
+		}
+		add(fltCase, "absent", p, nil)
+		add(fltCase, "present", p, []Step{{Op: "incrf", Delta: 1024}})
+	}
+	if len(sum.Samples) == 0 && len(scripts) > 0 {
+		sum.Samples = append(sum.Samples, map[string]any{"path": scripts[len(scripts)-1].Path.Name(), "steps": scripts[len(scripts)-1].Steps})
+	}
+	rec.Run("c15", scripts, nil)
+	record(w, rec, &seq, sum, seen, trace.Ev{"cfg": "N=3 R=2 P=13"}, func(h *History) bool { return true })
+	if err := w.Close(); err != nil {
+		t.Fatal(err)
+	}
+	writeSummary(t, out, "c15.summary.json", sum)
 }
